@@ -103,6 +103,16 @@ pub fn run(opts: &Opts) {
     for case in read_cases("corpus/determ.jsonl") {
         let _ = emit(&mut sink, case, "corpus", 64);
     }
+    // the same program with one string changed, one case after the other in this process: what one authorizer evaluated
+    // must not leak into the next (the pattern of `.matches`, the strings of the symbol table sit at the same indices)
+    for pat in ["file", "zzz", "1", "q", "ile1", "x", "file1", "f"] {
+        let case = json!({"op": "determ", "pool": ["f", "x", "query", "file1", pat],
+            "blocks": [{"checks": [], "ext": null, "facts": [{"n": 0, "t": [{"s": 3}]}], "rules": [], "sc": []}],
+            "az": {"checks": [{"k": "one", "q": [{"b": [{"n": 0, "t": [{"v": 1}]}], "e": [[{"val": {"v": 1}}, {"val": {"s": 4}}, {"bin": "Regex"}]], "h": {"n": 2, "t": []}, "sc": []}]}],
+                "facts": [], "policies": [{"k": "allow", "q": [{"b": [], "e": [[{"val": {"t": true}}]], "h": {"n": 2, "t": []}, "sc": []}]}], "rules": [], "sc": []},
+            "limits": {"f": 1000, "i": 100}, "queries": []});
+        let _ = emit(&mut sink, case, "sequence", reps);
+    }
     let n = if opts.n > 0 { opts.n } else if opts.thorough { 3_000 } else { 300 };
     for i in 0..n {
         let mut rng = case_rng(opts.seed, 11, i as u64);
